@@ -977,6 +977,15 @@ class Interp:
                     continue
                 raise Unsupported("**kwargs of unknown mapping", node)
             kwargs[k.arg] = self.eval(k.value, fr)
+        out_kw = [k for k in node.keywords if k.arg == "out" and isinstance(k.value, ast.Name)]
+        if out_kw and isinstance(f, Ref) and f.name.startswith("numpy."):
+            # ufunc(..., out=x): the result is stored in x (an in-place update of x)
+            cur = kwargs.pop("out")
+            res = self.call(f, args, kwargs, node, fr)
+            self.record("inplace", "out=", [cur], {}, node, {"fresh": getattr(cur, "fresh", None)})
+            g_ = self.store_guard()
+            fr.env[out_kw[0].value.id] = res if g_ is None else self.join(g_, res, cur)
+            return res
         return self.call(f, args, kwargs, node, fr)
 
     def call(self, f, args, kwargs, node, fr):
